@@ -99,6 +99,8 @@ def label_lemmas(tier) -> List[Result]:
         ext, strips, C = _find_patterns()
         fe = _shape(ext)
         fs = [_shape(p) for p in strips]
+        if len(strips) < 2:
+            raise ValueError("expected the hashtag-stripping re.sub in both ctparse() and _ctparse(), found %d" % len(strips))
     except Exception as e:
         return [Result("C10.LABEL-SPANS", "z3", INCONCLUSIVE, detail="cannot encode the label patterns: %r" % (e,), bounds="")]
     N = 7 if tier == "quick" else 9
